@@ -6,7 +6,8 @@ package server
 //
 // Runtime monitors: round trips and differential comparison against the
 // independent tables of vfc14_tables_test.go. Case i draws its PRNG from
-// vfCaseRand(seed,"C14",i) and runs one sub-check chosen by i%20:
+// vfCaseRand(seed,"C14",i) and runs one sub-check chosen by the first draw k in
+// 0..19 of that PRNG:
 //
 //	0-4   enc    struct -> Encode -> table offsets -> Decode -> struct
 //	5-8   dec    64 bytes -> Decode -> Encode -> defined bytes reproduced
@@ -158,7 +159,7 @@ func vfC14TableFrame(t *vfC14Type, vals map[string][]byte) []byte {
 
 func (c *vfC14Ctx) subEncode(types []*vfC14Type) {
 	r := c.rng
-	t := types[(c.i/20*5+c.i%20)%len(types)]
+	t := types[r.Intn(len(types))]
 	obj, vals := vfC14Fill(r, t)
 	bufA, bufB := vfC14Garbage(r), vfC14Garbage(r)
 	c.part.Add("enc_cases", 1)
@@ -229,7 +230,7 @@ func vfC14SafeDecode(o vfC14Codec, b []byte) (err error, panicked string) {
 
 func (c *vfC14Ctx) subDecode(types []*vfC14Type) {
 	r := c.rng
-	t := types[(c.i/20*4+c.i%20-5)%len(types)]
+	t := types[r.Intn(len(types))]
 	var in []byte
 	mode := "random"
 	if r.Chance(50) {
@@ -815,7 +816,7 @@ func (c *vfC14Ctx) subText(response bool) {
 	if total <= 200 {
 		c.part.Sample(4, map[string]interface{}{"subcheck": sub, "case": c.i, "stream": fmt.Sprintf("%q", s.Bytes), "splits_tried": len(splits)})
 	}
-	if !response && c.i%20 == 9 && (c.i/20)%50 == 0 {
+	if !response && r.Intn(50) == 0 {
 		// inline (non-RESP) commands: the parser has no support for them
 		_, _, perr, _ := vfC14Drive([][]byte{[]byte("PING\r\n")}, false)
 		if perr != nil {
@@ -835,8 +836,10 @@ func vfC14FirstN(xs []int, n int) []int {
 
 // ---------------------------------------------------------------- entry point
 
-func vfC14SubName(i int) string {
-	switch k := i % 20; {
+// vfC14Pick: the sub-check of a case is the first draw of its PRNG (not i%k, so
+// that it is not correlated with the shard i%shards the case runs in).
+func vfC14Pick(r *vfRand) string {
+	switch k := r.Intn(20); {
 	case k <= 4:
 		return "enc"
 	case k <= 8:
@@ -850,7 +853,7 @@ func vfC14SubName(i int) string {
 	case k <= 18:
 		return "eq"
 	}
-	return []string{"render", "stream", "firstframe", "idfunc"}[(i/20)%4]
+	return []string{"render", "stream", "firstframe", "idfunc"}[r.Intn(4)]
 }
 
 var vfC14Assumptions = []string{
@@ -873,33 +876,31 @@ func TestVerif_C14(t *testing.T) {
 	only := os.Getenv("VERIF_C14_SUB") // debugging aid: run one sub-check only
 	runCase := func(part *vfPart, i int) {
 		c := &vfC14Ctx{env: env, part: part, i: i, rng: vfCaseRand(env.Seed, "C14", i), stride: stride}
-		if only != "" && only != vfC14SubName(i) {
+		sub := vfC14Pick(c.rng)
+		if only != "" && only != sub {
 			return
 		}
-		switch k := i % 20; {
-		case k <= 4:
+		switch sub {
+		case "enc":
 			c.subEncode(types)
-		case k <= 8:
+		case "dec":
 			c.subDecode(types)
-		case k <= 11:
+		case "treq":
 			c.subText(false)
-		case k <= 13:
+		case "tresp":
 			c.subText(true)
-		case k <= 16:
+		case "bin":
 			c.subBinary()
-		case k <= 18:
+		case "eq":
 			c.subEquiv()
+		case "render":
+			c.subRender()
+		case "stream":
+			c.subStream()
+		case "firstframe":
+			c.subFirstFrame()
 		default:
-			switch (i / 20) % 4 {
-			case 0:
-				c.subRender()
-			case 1:
-				c.subStream()
-			case 2:
-				c.subFirstFrame()
-			default:
-				c.subIdFuncs()
-			}
+			c.subIdFuncs()
 		}
 	}
 	part := vfRunSharded(t, env, "TestVerif_C14", n, vfNumCPU(), runCase)
@@ -907,7 +908,7 @@ func TestVerif_C14(t *testing.T) {
 		return // shard child
 	}
 	spec := &vfSpec{Prop: "C14", Level: "exploration",
-		Rule:       "case i = PRNG input splitmix(seed,'C14',i) for sub-check i%20 (0-4 encode vs offset table, 5-8 decode->encode on random / mutated-valid 64-byte frames, 9-11 request parser splits, 12-13 response parser splits, 14-16 binary LOCK through BinaryServerProtocol.Process incl. split frames, 17-18 text vs binary LOCK/UNLOCK + key/id normalisation (key length = (i/20)%65), 19 result-code rendering / stream codec with call bodies and value frames / first-frame detection / id converter functions); non-trivial = non-empty field values, argument lists with >= 2 arguments or binary bytes fed through at least one split that crosses the stream, frames that were granted and compared with the census; distinct = hash of (sub-check, input bytes)",
+		Rule:       "case i = PRNG input splitmix(seed,'C14',i); its first draw k in 0..19 picks the sub-check (0-4 encode vs offset table, 5-8 decode->encode on random / mutated-valid 64-byte frames, 9-11 request parser splits, 12-13 response parser splits, 14-16 binary LOCK through BinaryServerProtocol.Process incl. split frames, 17-18 text vs binary LOCK/UNLOCK + key/id normalisation (key string length PRNG 0..64), 19 result-code rendering / stream codec with call bodies and value frames / first-frame detection / id converter functions); non-trivial = non-empty field values, argument lists with >= 2 arguments or binary bytes fed through at least one split that crosses the stream, frames that were granted and compared with the census; distinct = hash of (sub-check, input bytes)",
 		NontrivSet: "nontrivial", Assumptions: vfC14Assumptions,
 		Floors: []string{"enc_cases", "enc_fields_compared", "dec_frames_compared", "treq_splits", "treq_splits_3way_or_more", "tresp_splits", "bin_frames", "bin_split_variants", "bin_fields_compared", "eq_cases", "eq_fields_compared", "keynorm_server_checked", "keynorm_func_checked", "render_codes_checked", "stream_frames", "firstframe_cases"}}
 	vfFinish(t, env, spec, part, start)
